@@ -67,6 +67,14 @@ def sstr(x):
         return "<str() raised %s: %s>" % (type(exc).__name__, exc)
 
 
+def peek(cmd):
+    """The stored result of a command without triggering anything: the public `.result` of a finished command (which
+    only returns the memoised value), else whatever is stored (None before the first run)."""
+    if getattr(cmd, "is_finished", False):
+        return cmd.result
+    return getattr(cmd, "_result", None)
+
+
 class Ctx(object):
     def __init__(self, prop, tier, seed, shard=0, nshards=1, tmp=None):
         self.prop = prop
